@@ -1539,7 +1539,7 @@ def int_binop(op, a, b, ty):
             if sl == sh:
                 zeros = a[3] >> sl
         else:
-            lo, hi = min(al >> sl, al >> sh), max(ah >> sl, ah >> sh, 0)
+            lo, hi = min(al >> sl, al >> sh), max(ah >> sl, ah >> sh)      # arithmetic shift is monotone
     else:
         return None, False
     ovf = lo < lo_t or hi > hi_t
